@@ -181,6 +181,72 @@ def check_descent(ctx: Check, tree: Tree) -> None:
             ctx.verdict(not filtered, "R-DESCEND", key, tree.loc(loop), f"{fn.qual}: every argument is visited whenever the rule is non-empty (loop guarded by tests of the rule only)")
 
 
+def check_content_injective(ctx: Check, tree: Tree, hook_fn) -> None:
+    """R-INJECTIVE: "equal exactly when ... non-SymPy attributes are equal".  _hashable_content
+    maps every non-SymPy attribute through a key function.  For a *hashable* attribute (a class,
+    a function, an instance) the key must determine the attribute: the object itself, or a
+    wrapper whose __eq__ compares the wrapped objects.  A string derived from the object
+    (__qualname__, __name__, str(), repr(), f-string) is not injective: two classes or lambdas of
+    the same name - a redefined notebook cell, two closures of one factory - compare equal and
+    SymPy's expression cache hands out nodes that carry the other attribute.
+    (str(obj) for *unhashable* attributes, inside the TypeError handler of hash(obj), has no exact
+    alternative and is recorded as an advisory.)"""
+    from ..dataflow import RD
+
+    key_fns = []
+    for node in walk_function(hook_fn.node):
+        if isinstance(node, ast.Call) and any(isinstance(a, ast.Call) and unparse(a.func) == "getattr" for a in node.args):
+            callee = tree.callee(node, hook_fn)
+            if callee in tree.funcs:
+                key_fns.append(tree.funcs[callee])
+    if not key_fns:
+        ctx.ok("R-INJECTIVE", tree.loc(hook_fn.node), f"{hook_fn.qual}: attribute values enter the hashable content unchanged")
+        return
+    for kf in key_fns:
+        if not kf.params:
+            raise AnalysisError(f"{kf.qual}: no parameter")
+        param = kf.params[0]
+        rd = RD(kf.node)
+        n_ret = 0
+        for ret in [r for r in walk_function(kf.node, nested=False) if isinstance(r, ast.Return) and r.value is not None]:
+            n_ret += 1
+            v = ret.value
+            in_type_error_handler = any(isinstance(a, ast.ExceptHandler) and a.type is not None and "TypeError" in unparse(a.type) for a in _ancestors(ret))
+            key = f"{kf.qual}::return {unparse(v)[:50]}"
+            if isinstance(v, ast.Name) and v.id == param:
+                ctx.ok("R-INJECTIVE", tree.loc(ret), f"{kf.qual}: `return {v.id}` - the attribute itself is the key")
+                continue
+            if isinstance(v, ast.Call):
+                callee = tree.callee(v, kf)
+                cls = tree.classes.get(callee) if callee else None
+                if cls is not None and len(v.args) == 1 and isinstance(v.args[0], ast.Name) and v.args[0].id == param:
+                    eq = cls.methods.get("__eq__")
+                    hs = cls.methods.get("__hash__") or next(
+                        (st for st in cls.node.body if isinstance(st, ast.Assign) and any(isinstance(t, ast.Name) and t.id == "__hash__" for t in st.targets)
+                         and not (isinstance(st.value, ast.Constant) and st.value.value is None)), None)
+                    compares = eq is not None and any(
+                        isinstance(n, ast.Compare) and len(n.ops) == 1 and isinstance(n.ops[0], (ast.Is, ast.Eq))
+                        and all(isinstance(x, ast.Attribute) for x in (n.left, n.comparators[0])) and n.left.attr == n.comparators[0].attr
+                        for n in walk_function(eq.node))
+                    ok = compares and hs is not None
+                    ctx.verdict(ok, "R-INJECTIVE", key, tree.loc(ret), f"{kf.qual}: `return {unparse(v)}` - wrapper {cls.name} compares the wrapped objects ({'identity/equality' if compares else 'NO __eq__ on the wrapped object'}) and defines __hash__",
+                                None if ok else "the wrapper does not determine the attribute")
+                    continue
+            lossy = isinstance(v, ast.JoinedStr) or (isinstance(v, ast.Call) and unparse(v.func) in {"str", "repr", "format", "id", "hash"}) or any(
+                isinstance(n, ast.Attribute) and n.attr in {"__qualname__", "__name__", "__module__"} for n in ast.walk(v))
+            if lossy and in_type_error_handler:
+                ctx.advisory("R-INJECTIVE", tree.loc(ret), f"{kf.qual}: unhashable attributes are keyed by `{unparse(v)}` (no exact key exists for them)")
+                continue
+            if lossy:
+                ctx.violation("R-INJECTIVE", f"{kf.qual}::name-derived-key", tree.loc(ret),
+                              f"{kf.qual}: `return {unparse(v)[:70]}` - a hashable attribute is replaced by a string derived from it",
+                              "two distinct classes / functions with the same module and qualified name (redefinition in a session, closures of one factory, lambdas) give equal, equally hashed expressions although evaluate() differs")
+                continue
+            raise AnalysisError(f"{kf.qual}: return `{unparse(v)[:60]}` of unknown shape")
+        if not n_ret:
+            raise AnalysisError(f"{kf.qual}: no return")
+
+
 def count_nested_constructions(tree: Tree) -> list[str]:
     classes = set(expression_classes(tree)) | set(handwritten_expr_classes(tree))
     out = []
@@ -291,6 +357,7 @@ def run(ctx: Check, tree: Tree) -> None:
             ctx.violation("R-HASH", key + "::no-super", tree.loc(fn.node), f"{fn.qual} drops the class/args part of the hashable content")
         else:
             ctx.ok("R-HASH", tree.loc(value), f"cls._hashable_content = {unparse(value)}: unconditional, returns super content + getattr over non-SymPy fields")
+        ctx.section(check_content_injective, ctx, tree, fn)
     n_nonsympy = sum(1 for c in classes.values() if c.non_sympy_fields)
     ctx.stats["classes_with_non_sympy_fields"] = n_nonsympy
     for attr in ("_eval_subs", "_xreplace"):
